@@ -37,3 +37,14 @@ package surgeon
 //@   props C20
 //@   ensures [older] err == nil ==> fwcount == old(fwcount) + 1 && fwpath == path && fwpageid == (grtxid[0] < grtxid[1] ? 1 : 0) && fwtxid == (grtxid[0] < grtxid[1] ? grtxid[0] : grtxid[1]) && fwroot == (grtxid[0] < grtxid[1] ? grroot[0] : grroot[1])
 //@   ensures [onlypath] fwcount > old(fwcount) ==> fwpath == path
+
+//@ func ClearPageElements
+//@   props C20
+//@   ensures [onlypath] fwcount > old(fwcount) ==> fwpath == path
+//@   ensures [nocreate] ncreated == old(ncreated)
+//@   skip nopanic because element-range arithmetic on decoded inodes (ReadInodeFromPage / WriteInodeToPage are not under contract yet): only the write target is claimed here
+
+//@ func ClearPage
+//@   props C20
+//@   ensures [onlypath] fwcount > old(fwcount) ==> fwpath == path
+//@   ensures [nocreate] ncreated == old(ncreated)
